@@ -96,7 +96,7 @@ CLAIMS["C05"] = (
     "should_skip_line on every ASCII line of <= 5 bytes (blank, indented comment, single slash ...); "
     "Section::try_from_line on every ASCII line of <= 14 bytes plus each real header with one symbolic byte inserted "
     "anywhere (indented / suffixed / infixed headers are not headers; exactly the 11 names, case-sensitive); "
-    "try_version_from_line on short lines and on the version prefix followed by every ASCII tail (number after the last "
+    "Decoder::curr_line removes trailing white space only (leading white space survives); try_version_from_line on short lines and on the version prefix followed by every ASCII tail (number after the last "
     "'v', real i32 parser, +-(2^31-1) limit, bad number != not-a-version-line).",
     "Bound: lines <= 5 / 14 bytes, version tails <= 1 byte (quick) / <= 4 bytes (thorough), ASCII only (non-ASCII white "
     "space before '//' is outside). Outside: the driver loop that acts on the classes (skip-before-first-header, "
@@ -127,7 +127,7 @@ CLAIMS["C10"] = (
     "Transcoding level: Encoding::from_bom on every byte string <= 4 bytes equals the BOM table of the statement; the "
     "UTF-16 unit iterators pair bytes in the stated order and drop an odd trailing byte for every input <= 5 bytes; "
     "Encoding::decode for UTF-16LE/BE on one arbitrary code unit (+ arbitrary odd byte) equals a reference transcoder "
-    "written from the Unicode standard (every BMP scalar, lone surrogates -> U+FFFD).",
+    "written from the Unicode standard (every BMP scalar, lone surrogates -> U+FFFD), whatever text the shared destination buffer held before.",
     "Bound: 1 code unit (2 units and the UTF-8 lossy path are attempted in the thorough tier only: they run out of "
     "memory at 8-20 GB in String growth / run_utf8_validation). Outside: everything in Decoder::read_line (LF search on "
     "raw bytes, the extra byte after LF in UTF-16LE) -- not executable under CBMC (out of memory up to 40 GB); the "
@@ -142,7 +142,7 @@ CLAIMS["C11"] = (
     "failure): +-(2^31-1) limit in the field's own type, NaN rejected, flag true only for 1, clamps [0.4,3.6] / "
     "[0.5,8], approach rate follows overall difficulty until set, break end >= start, R,G,B[,A] with ignored alpha, "
     "2 or 5 colour fields rejected, named colour overrides, unknown keys ignored, invalid values leave every field "
-    "untouched; background precedence over 12 concrete lines.",
+    "untouched; background precedence over 16 concrete lines (names without dot, with long extensions, non-ASCII, shorter than 3 bytes included); colour names are case-sensitive.",
     "Bound: one line per harness from an arbitrary section state (inductive step over lines); template corpus = one "
     "line shape per key (padded / comment-suffixed variants for some). " + ORACLE_NOTE + " Outside: decimal syntax "
     "accepted by std; Bookmarks lists (collect() over symbolic data did not finish); file-name cleaning on arbitrary text.",
@@ -154,7 +154,7 @@ CLAIMS["C12"] = (
     "against a reference model of the legacy semantics evaluated on the same symbolic values: groups by time, last "
     "inherited line wins / first timing-change line wins per kind, redundancy against the active point, replacement at "
     "equal time, clamps [6,60000] / [0.1,10] / [0.01,10] (taiko, mania only) / [0,100], NaN only on inherited lines "
-    "(ticks off), defaults from [General]; the four lists must be element-wise equal and strictly increasing.",
+    "(ticks off), defaults from [General]; the four lists must be element-wise equal and strictly increasing; a rejected line leaves the pending group and the lists untouched (observed through a hook).",
     "Bound: 1 line (4 shapes) and 2 lines at one time (quick); 2 lines at different / out-of-order times (thorough); "
     "times from {-5,0,10,20} (concrete tokens); beat length from an 18-value alphabet incl. 0, -0, NaN, +-3e9, inf, "
     "-1e-300 (the velocity division 100/-b is computed by code and reference: two full-width dividers do not finish); "
@@ -171,7 +171,7 @@ CLAIMS["C14"] = (
     "max(0, .), remembered type, the documented sample list; convert_path_str (hook) on single typed segments "
     "'<P|B|L|C>|x:y|x:y': origin carries the type, collinear perfect curve -> linear, offsets, rejection leaves no "
     "control points.",
-    "Bound: template corpus above; hit-sound numbers 6 and 10 concrete in the quick tier (symbolic in thorough: the "
+    "Bound: template corpus above; hit-sound number concrete (6; with extras 10 in the thorough tier; fully symbolic in thorough: the "
     "sample Vec's length must stay concrete for CBMC); no repeated consecutive path points. " + ORACLE_NOTE +
     " Outside: full slider lines and multi-segment paths (explicit second type letter) -- not executable (out of "
     "memory / no result, DESIGN.md §5 C06/C14), hence defect D2 is NOT found; repeat counts, node samples, file names.",
@@ -207,7 +207,7 @@ CLAIMS["C07"] = (
     "Per line (same oracle interpretation): the full decoder's state and each specialised decoder's state end with "
     "equal shared fields and equal acceptance for Difficulty, General, Editor, Metadata, Colours and Events lines, "
     "and decoders that do not own a section ignore it; Beatmap::from(BeatmapState) copies every numeric / flag field "
-    "(all symbolic) of General, Difficulty, Editor, Metadata and the version.",
+    "(all symbolic) of General, Difficulty, Editor, Metadata and the version, and keeps two arbitrary breaks in file order.",
     "Bound: 2 templates per shared section; conversions with empty object / control-point lists. " + ORACLE_NOTE +
     " Outside: timing-point and hit-object line delegation (same one-line forwarding, not yet harnessed), "
     "should_skip_line equality across types beyond C05's default-method check, lines outside the corpus.",
